@@ -5,7 +5,7 @@ use crate::{
     handle::internal_increase_position,
     messages::{
         execute_insurance_fund_withdrawal, execute_transfer, execute_transfer_from,
-        execute_transfer_to_insurance_fund, transfer_fees, withdraw,
+        execute_transfer_to_insurance_fund, transfer_fees, withdraw, withdraw_with_reserve,
     },
     querier::query_vamm_state,
     query::query_margin_ratio,
@@ -596,15 +596,10 @@ pub fn liquidate_reply(
         Uint128::zero()
     };
 
-    // any remaining margin goes to the insurance contract
-    if !remain_margin.margin.is_zero() {
-        msgs.push(
-            execute_transfer(deps.storage, &config.insurance_fund, remain_margin.margin).unwrap(),
-        );
-    }
-
+    // pay the liquidator, drawing on the insurance fund if the vault cannot cover both the
+    // fee and the remaining margin that is sent to the insurance fund below
     msgs.append(
-        &mut withdraw(
+        &mut withdraw_with_reserve(
             deps.as_ref(),
             env.clone(),
             &mut state,
@@ -612,9 +607,17 @@ pub fn liquidate_reply(
             config.eligible_collateral,
             liquidation_fee,
             pre_paid_shortfall,
+            remain_margin.margin,
         )
         .unwrap(),
     );
+
+    // any remaining margin goes to the insurance contract
+    if !remain_margin.margin.is_zero() {
+        msgs.push(
+            execute_transfer(deps.storage, &config.insurance_fund, remain_margin.margin).unwrap(),
+        );
+    }
 
     store_state(deps.storage, &state)?;
 
@@ -701,13 +704,10 @@ pub fn partial_liquidation_reply(
     let mut messages: Vec<SubMsg> = vec![];
 
     if !liquidation_fee.is_zero() {
-        messages
-            .push(execute_transfer(deps.storage, &config.insurance_fund, liquidation_fee).unwrap());
-
-        // calculate token balance that should be remaining once
-        // insurance fees have been paid
+        // pay the liquidator first, topping the vault up from the insurance fund if it
+        // cannot cover both halves of the penalty
         messages.append(
-            &mut withdraw(
+            &mut withdraw_with_reserve(
                 deps.as_ref(),
                 env.clone(),
                 &mut state,
@@ -715,9 +715,13 @@ pub fn partial_liquidation_reply(
                 config.eligible_collateral,
                 liquidation_fee,
                 Uint128::zero(),
+                liquidation_fee,
             )
             .unwrap(),
         );
+
+        messages
+            .push(execute_transfer(deps.storage, &config.insurance_fund, liquidation_fee).unwrap());
     }
 
     store_position(deps.storage, &position)?;
